@@ -127,7 +127,7 @@ protected:
 			}
 		}
 
-		HandleMismatchedTypesPolicy(serializationOptions.mismatchedTypesPolicy);
+		HandleMismatchedTypesPolicy(jsonValue, serializationOptions.mismatchedTypesPolicy);
 		return false;
 	}
 
@@ -135,7 +135,7 @@ protected:
 	{
 		if (!jsonValue.IsString())
 		{
-			HandleMismatchedTypesPolicy(serializationOptions.mismatchedTypesPolicy);
+			HandleMismatchedTypesPolicy(jsonValue, serializationOptions.mismatchedTypesPolicy);
 			return false;
 		}
 
@@ -149,9 +149,10 @@ protected:
 		return RapidJsonNode(value.data(), static_cast<rapidjson::SizeType>(value.size()), allocator);
 	}
 
-	static void HandleMismatchedTypesPolicy(MismatchedTypesPolicy mismatchedTypesPolicy)
+	static void HandleMismatchedTypesPolicy(const RapidJsonNode& jsonValue, MismatchedTypesPolicy mismatchedTypesPolicy)
 	{
-		if (mismatchedTypesPolicy == MismatchedTypesPolicy::ThrowError)
+		// Null value from JSON is excluded from MismatchedTypesPolicy processing
+		if (mismatchedTypesPolicy == MismatchedTypesPolicy::ThrowError && !jsonValue.IsNull())
 		{
 			throw SerializationException(SerializationErrorCode::MismatchedTypes,
 				"The type of target field does not match the value being loaded");
@@ -252,7 +253,7 @@ public:
 			if (jsonValue.IsObject()) {
 				return std::make_optional<RapidJsonObjectScope<TMode, TEncoding, TAllocator>>(&jsonValue, mAllocator, this->GetContext(), this);
 			}
-			RapidJsonScopeBase<TEncoding>::HandleMismatchedTypesPolicy(this->GetContext().GetOptions().mismatchedTypesPolicy);
+			RapidJsonScopeBase<TEncoding>::HandleMismatchedTypesPolicy(jsonValue, this->GetContext().GetOptions().mismatchedTypesPolicy);
 			return std::nullopt;
 		}
 		else
@@ -271,7 +272,7 @@ public:
 			if (jsonValue.IsArray()) {
 				return std::make_optional<RapidJsonArrayScope<TMode, TEncoding, TAllocator>>(&jsonValue, mAllocator, this->GetContext(), this);
 			}
-			RapidJsonScopeBase<TEncoding>::HandleMismatchedTypesPolicy(this->GetContext().GetOptions().mismatchedTypesPolicy);
+			RapidJsonScopeBase<TEncoding>::HandleMismatchedTypesPolicy(jsonValue, this->GetContext().GetOptions().mismatchedTypesPolicy);
 			return std::nullopt;
 		}
 		else
@@ -396,7 +397,7 @@ public:
 				{
 					return std::make_optional<RapidJsonObjectScope<TMode, TEncoding, TAllocator>>(jsonValue, mAllocator, this->GetContext(), this, key);
 				}
-				RapidJsonScopeBase<TEncoding>::HandleMismatchedTypesPolicy(this->GetContext().GetOptions().mismatchedTypesPolicy);
+				RapidJsonScopeBase<TEncoding>::HandleMismatchedTypesPolicy(*jsonValue, this->GetContext().GetOptions().mismatchedTypesPolicy);
 			}
 			return std::nullopt;
 		}
@@ -419,7 +420,7 @@ public:
 				{
 					return std::make_optional<RapidJsonArrayScope<TMode, TEncoding, TAllocator>>(jsonValue, mAllocator, this->GetContext(), this, key);
 				}
-				RapidJsonScopeBase<TEncoding>::HandleMismatchedTypesPolicy(this->GetContext().GetOptions().mismatchedTypesPolicy);
+				RapidJsonScopeBase<TEncoding>::HandleMismatchedTypesPolicy(*jsonValue, this->GetContext().GetOptions().mismatchedTypesPolicy);
 			}
 			return std::nullopt;
 		}
@@ -585,7 +586,7 @@ public:
 			{
 				return std::make_optional<RapidJsonArrayScope<TMode, TEncoding, allocator_type>>(&mRootJson, mRootJson.GetAllocator(), this->GetContext());
 			}
-			RapidJsonScopeBase<TEncoding>::HandleMismatchedTypesPolicy(this->GetContext().GetOptions().mismatchedTypesPolicy);
+			RapidJsonScopeBase<TEncoding>::HandleMismatchedTypesPolicy(mRootJson, this->GetContext().GetOptions().mismatchedTypesPolicy);
 			return std::nullopt;
 		}
 		else
@@ -606,7 +607,7 @@ public:
 			{
 				return std::make_optional<RapidJsonObjectScope<TMode, TEncoding, allocator_type>>(&mRootJson, mRootJson.GetAllocator(), this->GetContext());
 			}
-			RapidJsonScopeBase<TEncoding>::HandleMismatchedTypesPolicy(this->GetContext().GetOptions().mismatchedTypesPolicy);
+			RapidJsonScopeBase<TEncoding>::HandleMismatchedTypesPolicy(mRootJson, this->GetContext().GetOptions().mismatchedTypesPolicy);
 			return std::nullopt;
 		}
 		else
